@@ -82,6 +82,86 @@ CLAIMED = {
              "after their due time with small lateness.",
         technique="Lean 4 proof of timing kernels + virtual-time simulation oracle against the proved window",
         design="5/C13"),
+    "C06": dict(
+        text="Lean 4 theorems over a line-by-line model of stun_message_validate_buffer_length(_fast)/stun_message_find: the length "
+             "check returns L exactly when the first L bytes satisfy an independent RFC 5389 grammar (Tiles/parseAttrs written "
+             "from the RFC), 'incomplete' exactly when the first two bits are zero and an acceptable header announces more bytes, "
+             "the vectored pre-check is independent of how the bytes are split over buffers (also with empty buffers), agrees "
+             "with the full check, lookups return the reference parser's first match honouring the M-I/FINGERPRINT rule; walks "
+             "terminate without fault. Model tied line by line to the real functions (all 2^(n-1) splits of short messages, "
+             "prefixes, mutants) and an independent Python parser evaluates the property on the C outputs.",
+        note="Trusted: Lean kernel, hand-written Stun model + StunGrammar spec, stun_drv harness, extract.py constants/kernels "
+             "(stun_padding, stun_align, stun_getw, class/method). Sizes <= 65535 (16-bit length field).",
+        technique="Lean 4 proof (grammar equivalence, split independence by refinement) + differential correspondence",
+        design="5/C06"),
+    "C07": dict(
+        text="Lean 4 theorems over the builder model (stun_message_init/append*/finish): every append fits or leaves buffer and length "
+             "unchanged, no byte outside the caller's buffer is written for any capacity, finish yields 0 or a length within the "
+             "buffer, finished messages are well-formed for the RFC grammar, 32/64-bit values, flags, byte strings, plain and "
+             "XOR-mapped IPv4/IPv6 addresses and error codes 300..699 read back equal (XOR is an involution). Tied to the real "
+             "builder with random op sequences into exactly-sized buffers of 0..2048 bytes with guard blocks under ASan; the "
+             "property is also evaluated on the C outputs with an independent parser and the library's own validation.",
+        note="Trusted: Lean kernel, Stun model, stun_drv harness; capacity <= 65535; HMAC length 20 assumed for finish_len; "
+             "usage builders and C07_usage_builders_propagate are tied by the differential run only.",
+        technique="Lean 4 proof (bounded writes, round trips) + differential correspondence under ASan",
+        design="5/C07"),
+    "C04": dict(
+        text="Lean 4 theorems over the stun_agent_validate / finish model with HMAC and MD5 as parameters: SUCCESS under a "
+             "credential-using agent implies MESSAGE-INTEGRITY = hmac(key)(RFC-defined prefix) for the key bound to USERNAME or to "
+             "the matching request (exemptions spelled out), FINGERPRINT = CRC-32 xor 0x5354554e where in use (CRC table "
+             "regenerated from stuncrc32.c and proved equal to the polynomial definition by decide +kernel), a response passes "
+             "only with an outstanding request of the same id and method and at most once. Model incl. executable SHA-1/HMAC/MD5 "
+             "is tied byte for byte to the real library and GnuTLS; an independent Python HMAC/CRC oracle checks every SUCCESS "
+             "on the C side, with single/multi-byte corruptions and replay/reorder scripts.",
+        note="Trusted: Lean kernel, Stun agent model, stun_drv, GnuTLS as reference for the executable hashes; "
+             "C04_finish_then_validate is tied by the differential `valm` op (theorem pending); cryptographic strength of HMAC is outside scope.",
+        technique="Lean 4 proof of validation soundness + differential correspondence + independent MAC/CRC oracle",
+        design="5/C04"),
+    "C05": dict(
+        text="Lean 4 no-fault theorems over the faulting form of the STUN model (every packet read bounds-checked): for every byte "
+             "string (< 65536 bytes), every split into buffers, every configuration, validate_buffer_length(_fast), every find*/"
+             "accessor, the unknown-attribute scan, append and stun_agent_validate return a status without an out-of-bounds access, "
+             "and whatever an accessor returns lies inside the packet. Runtime conjunct (no UB/abort in the compiled C) is PARTIAL: "
+             "observed under ASan/UBSan on exactly-sized heap blocks for all lengths 0..64 x layouts, random/mutated packets, reply "
+             "capacities 0..1300; nine genuine defects found this way were fixed in /repo and stay as corpus witnesses.",
+        note="Trusted: Lean kernel, Stun model, stun_drv harness, sanitizers for the runtime half; no-fault of finish/create_reply/"
+             "usage builders is tied by the differential run only; TURN usages not yet modelled.",
+        technique="Lean 4 proof of no-fault / in-bounds on the model + sanitizer-instrumented differential correspondence",
+        design="5/C05"),
+    "C14": dict(
+        text="PARTIAL. Lean 4 theorems: for every RNG output the new local credentials have length 4/22 over ice-char (alphabet and "
+             "lengths regenerated from random.c / stream.h), credentials are an injective image of the draws (freshness = RNG "
+             "freshness), a restart leaves no remote candidate, check or remote credential and puts every component in GATHERING. "
+             "Re-convergence, freshness in practice and rejection of pre-restart checks are explored on real agents: restarts "
+             "during gathering / mid-check / at READY / with data flowing, one side or both, up to 5 rounds, captured pre-restart "
+             "requests replayed (must get no success answer and change nothing), then new signalling and C01's oracles.",
+        note="Trusted: Lean kernel, Creds model, sim_drv; convergence after restart inherits C01's known findings K1/K2.",
+        technique="Lean 4 proof of credential grammar/injectivity/forgetting + simulation of real agents",
+        design="5/C14"),
+    "C20": dict(
+        text="PARTIAL. Lean 4 theorems on the per-item gathering abstraction: with at most K re-authentication/redirect answers an "
+             "item is done after K+1 rounds (each bounded by the C19 timer), candidates come only from success answers and are "
+             "never duplicated, the completion signal fires once per gathering run; and the NEGATIVE result that no bound exists "
+             "without the cap (for every n, n stale-nonce answers leave the item pending) — reproduced on the real agent and "
+             "recorded as known finding K3. Tied by simulation: a real agent gathers against scripted STUN/TURN servers (drop, "
+             "duplicate, late, errors, garbage, foreign txid, IPv6, 401-then-auth, unauthenticated success, 438, 300) with loss; "
+             "oracles: one gathering-done, within the bound for finite scripts, host candidate per address, every reflexive/relayed "
+             "candidate supplied by a matched success answer, each announced once.",
+        note="Trusted: Lean kernel, Gather abstraction (coarser than discovery.c), sim_drv scripted servers built with libnice's STUN code.",
+        technique="Lean 4 proof on the gathering abstraction (incl. proved negation) + simulation against scripted servers",
+        design="5/C20"),
+    "C03": dict(
+        text="PARTIAL. Lean 4 theorems on the inbound decision kernels: agent state may be touched only after validation status "
+             "SUCCESS or FORBIDDEN (both require a correct MESSAGE-INTEGRITY by C04), every other status is a stutter step (400/401/"
+             "420 reply, drop, or not-control), a datagram reaches the application only if its source is in the valid set, and is "
+             "consumed as control traffic only if both length checks accept it at full length and the handler claims it. Tied by "
+             "paired simulations of real agents with the same seed, with and without an off-path attacker injecting 40-80 forged "
+             "datagrams (all STUN classes/methods, missing/truncated/empty/over-long/wrong-key M-I, forged responses/487/403, role "
+             "flipping, RTP, spoofed and foreign sources) from gathering to READY: per-component application traces must be equal, "
+             "replies to the attacker limited to 400/401/420, attacker payloads from unvalidated sources never delivered.",
+        note="Trusted: Lean kernel, Gate table model, C04's validation theorems, sim_drv; cryptographic unforgeability is assumed.",
+        technique="Lean 4 proof of gate kernels + paired non-interference simulation of real agents",
+        design="5/C03"),
 }
 
 NA_REASON = "not yet decided by the framework at this commit (model/theorems under construction); not claimed"
